@@ -171,7 +171,7 @@ fn axis_case(c: &AxisCase, rng: &mut Rng) -> (String, Value) {
     let mut conj: Vec<String> = Vec::new();
     let mut goal = |what: &str, k: Option<usize>, val: f64, scale: f64| {
         let tag = c.num * 1000 + conj.len();
-        conj.push(format!("c16_tag {} (Rabs ({} - {}) <= {})", tag, term(what, k.unwrap_or(0)), rq(val), tol(scale)));
+        conj.push(format!("c16_tag {}%Z (Rabs ({} - {}) <= {})", tag, term(what, k.unwrap_or(0)), rq(val), tol(scale)));
         goals.push(json!({"tag": tag, "what": what, "k": k, "impl": val}));
     };
     let idx = sample_indices(n, if c.kind == "polar" { 2 } else { 4 }, rng);
@@ -550,7 +550,7 @@ fn main() {
         add("PC-SAFT propane/butane (KR)", &mut |s, d, l| run_uniform(s, d, &b, l));
     }
     if full {
-        let f = pcsaft_functional(&["water_np"], "gross2002.json", None);
+        let f = pcsaft_functional(&["water"], "gross2002.json", None);
         let b = bulk_state(&f, rng.range(300.0, 500.0), &[rng.range(0.001, 0.03)]);
         add("PC-SAFT water (association)", &mut |s, d, l| run_uniform(s, d, &b, l));
     }
@@ -558,6 +558,13 @@ fn main() {
         let f = gc_functional(&["propane"]);
         let b = bulk_state(&f, rng.range(200.0, 400.0), &[rng.range(0.0005, 0.008)]);
         add("gc-PC-SAFT propane (heterosegmented)", &mut |s, d, l| run_uniform(s, d, &b, l));
+    }
+    if full {
+        let p = feos::saftvrqmie::SaftVRQMieParameters::from_json(
+            vec!["hydrogen"], format!("{}/saftvrqmie/aasen2019.json", params()), None, IdentifierOption::Name).unwrap();
+        let f = Arc::new(feos::saftvrqmie::SaftVRQMieFunctional::new(Arc::new(p)));
+        let b = bulk_state(&f, rng.range(25.0, 80.0), &[rng.range(0.001, 0.02)]);
+        add("SAFT-VRQ Mie hydrogen", &mut |s, d, l| run_uniform(s, d, &b, l));
     }
     let _ = arr1(&[0.0]);
 
